@@ -1,0 +1,6 @@
+//go:build !verif
+
+package pool
+
+// yield is a no-op in normal builds (see hook_verif.go).
+func yield(point string) {}
